@@ -5,6 +5,7 @@ from .framework import run_check
 
 # property id -> "module:Class" (module relative to the harness package)
 PROPS = {
+    "C12": "props_lazy:C12",
     "C04": "props_decomp:C04",
     "C08": "props_partial:C08",
     "C17": "props_rechunk:C17",
